@@ -110,11 +110,28 @@ def d2_repair(out):
 # ---------------------------------------------------------------------------------------------
 
 def mk_params(case):
+    return mk_params_p(case["params"], case.get("align_kind", "tuple"))
+
+
+def params_json(p, d2fix):
+    al = p["align"]
+    if al is True or al is False:
+        alj = dict(t="bool", b=al)
+    elif isinstance(al, int):
+        alj = dict(t="col", n=al)
+    else:
+        alj = dict(t="cols", l=list(al))
+    return dict(width=p["width"], align=alj, from_spaces=p["from_spaces"], hanging=p["hanging"], indent=p["indent"],
+                sep_from=p["sep_from"], align_future=p["align_future"], d2fix=d2fix)
+
+
+DEFAULT_PARAMS = dict(width=None, align=True, from_spaces=1, hanging="never", indent=4, sep_from=True, align_future=False)
+
+
+def mk_params_p(p, kind="tuple"):
     from pyflyby._importstmt import ImportFormatParams
-    p = case["params"]
     al = p["align"]
     if isinstance(al, list):
-        kind = case.get("align_kind", "tuple")
         al = tuple(al) if kind == "tuple" else set(al) if kind == "set" else list(al)
     return ImportFormatParams(max_line_length=p["width"], align_imports=al, from_spaces=p["from_spaces"],
                               hanging_indent=p["hanging"], indent=p["indent"],
@@ -141,6 +158,76 @@ def text_of(imports):
             out.append(gen_c11.render_stmt(i))
         prev = key
     return "".join(l + "\n" for l in out)
+
+
+def build_set(imports, via):
+    """a brand-new ImportSet made of brand-new Import objects"""
+    from pyflyby._importclns import ImportSet
+    from pyflyby._importstmt import Import
+    if via == "text" and imports:
+        return ImportSet(text_of(imports))
+    return ImportSet([Import.from_split(split_of(i)) for i in imports])
+
+
+def stmts_json(sts):
+    return [[s.fromname, [list(a) for a in s.aliases]] for s in sts]
+
+
+def run_step(S, step):
+    """apply one step of a "seq" case to the ImportSet object S; canonical JSON result"""
+    op = step["op"]
+    try:
+        if op == "pp":
+            return dict(out=S.pretty_print(params=mk_params_p(step["params"], step.get("align_kind", "tuple"))))
+        if op == "stmts":
+            return dict(stmts=stmts_json(S.get_statements(separate_from_imports=step["sep_from"])))
+        if op == "repr":
+            return dict(out=repr(S))
+        if op == "statements":
+            return dict(stmts=stmts_json(S.statements), imports=[[i.fullname, i.import_as] for i in S.imports],
+                        n=len(S), conflicts=sorted(S.conflicting_imports))
+        if op == "stmt_pp":
+            sts = S.get_statements(separate_from_imports=step["sep_from"])
+            if not sts:
+                return dict(none=True)
+            st = sts[step["idx"] % len(sts)]
+            outs = []
+            for c in step["calls"]:
+                outs.append(st.pretty_print(params=mk_params_p(c["params"]), import_column=c["col"], from_spaces=c["fs"]))
+                outs.append(str(st))
+            return dict(stmt=stmts_json([st])[0], outs=outs, imports=[[i.fullname, i.import_as] for i in st.imports])
+        if op in ("with", "union"):
+            O = build_set(step["other"], "split")
+            R = S.with_imports(O) if op == "with" else (S | O)
+        elif op == "without":
+            R = S.without_imports(build_set(step["remove"], "split"))
+        else:
+            raise KeyError(op)
+        res = dict(imports=sorted([i.fullname, i.import_as] for i in R))
+        try:
+            res["out"] = R.pretty_print(params=mk_params_p(step["params"]))
+        except Exception as e:
+            res["err"] = err_enum(e)
+        return res
+    except Exception as e:
+        return dict(err=err_enum(e), msg=str(e)[:150])
+
+
+def step_brief(step):
+    op = step["op"]
+    if op == "pp":
+        return "pretty_print(%s)" % ", ".join("%s=%r" % kv for kv in sorted(step["params"].items()))
+    if op == "stmts":
+        return "get_statements(separate_from_imports=%r)" % step["sep_from"]
+    if op == "repr":
+        return "repr()"
+    if op == "statements":
+        return ".statements/.imports/len()/.conflicting_imports"
+    if op == "stmt_pp":
+        return "get_statements(%r)[%d].pretty_print x%d, str()" % (step["sep_from"], step["idx"], len(step["calls"]))
+    if op in ("with", "union"):
+        return "%s(%s).pretty_print(sep_from=%r)" % (op, "; ".join(gen_c11.render_stmt(i) for i in step["other"]), step["params"]["sep_from"])
+    return "without_imports(%s).pretty_print(sep_from=%r)" % ("; ".join(gen_c11.render_stmt(i) for i in step["remove"]), step["params"]["sep_from"])
 
 
 def err_enum(e):
@@ -192,7 +279,11 @@ class C11(Prop):
             "lengths 1..60, low-entropy names so that grouping, sort ties and conflicts occur; 1..39 imports) x width None|10..200 "
             "(35 % placed within +-2 of a statement's one-line length) x align False/True/int/sets x from_spaces 1..8 x hanging x indent "
             "x separate_from_imports x align_future; exhaustive: all sets of <= 3 imports over an 8-import alphabet x 96-point grid "
-            "(quick: seed-chosen 5 %); plus free-layout import statements for the reference grammar vs ast.parse; "
+            "(quick: seed-chosen 5 %); plus free-layout import statements for the reference grammar vs ast.parse; plus (25 % of the generated cases "
+            "and a small scope of 736 points) call SEQUENCES on one ImportSet object: 2-6 of pretty_print with changing parameters "
+            "(separate_from_imports flips, width/align changes), get_statements, repr(), .statements/.imports, ImportStatement.pretty_print "
+            "several times + str(), with_imports / | / without_imports followed by formatting - every call must equal the same call on a "
+            "fresh equal object and the model's answer; "
             "non-trivial = output has a wrapped statement (more physical lines than statements); distinct by case")
     trusted_base = ["CPython's parser (`ast.parse`) defines 'valid Python' and which imports a text denotes",
                     "the Lean reference grammar `parseBlock` (subset of import syntax the formatter can emit) is a model of CPython's "
@@ -217,6 +308,8 @@ class C11(Prop):
         if i % 8 == 7:
             t, bad = gen_c11.gen_stmt_text(rng)
             return dict(kind="parse", text=t)
+        if i % 4 == 1:
+            return gen_c11.gen_seq_case(rng)
         return gen_c11.gen_case(rng)
 
     def exhaustive_cases(self, tier, rng):
@@ -224,12 +317,14 @@ class C11(Prop):
         pts = [(s, g) for s in sets for g in grid]
         if tier != "thorough":
             pts = rng.sample(pts, len(pts) // 20)
-        return [gen_c11.small_case(s, g, rng) for s, g in pts]
+        return [gen_c11.small_case(s, g, rng) for s, g in pts] + gen_c11.small_seq_cases(rng, tier == "thorough")
 
     # -- implementation ------------------------------------------------------------------------
     def run_impl(self, case):
         if case.get("kind") == "parse":
             return dict(ast=ast_statements(case["text"]))
+        if case.get("kind") == "seq":
+            return self.run_seq(case)
         from pyflyby._importclns import ImportSet
         from pyflyby._importstmt import Import
         obs = {}
@@ -261,10 +356,55 @@ class C11(Prop):
             obs["refmt_err"] = err_enum(e)
         return obs
 
+    def run_seq(self, case):
+        """every step on ONE object, in order; and every step alone on a fresh equal object"""
+        try:
+            S = build_set(case["imports"], case.get("via"))
+        except Exception as e:
+            return dict(err="construct:" + err_enum(e))
+        same = [run_step(S, st) for st in case["steps"]]
+        fresh = [run_step(build_set(case["imports"], case.get("via")), st) for st in case["steps"]]
+        # and the same object once more with the first step (earlier calls must not have changed it)
+        again = run_step(S, case["steps"][0]) if case["steps"] else None
+        return dict(same=same, fresh=fresh, again=again)
+
+    def oracle_seq(self, case, obs):
+        if "err" in obs:
+            return [dict(what="constructing the set raised", err=obs["err"])]
+        fails = []
+        steps = case["steps"]
+        imports = [gen_c11.render_stmt(i) for i in case["imports"]][:14]
+        want = collections.Counter(set(canon_import(i) for i in case["imports"]))
+        for k, (a, b) in enumerate(zip(obs["same"], obs["fresh"])):
+            if a != b:
+                diff = [key for key in sorted(set(a) | set(b)) if a.get(key) != b.get(key)]
+                fails.append(dict(what="a call on an ImportSet that was used before gives a different result than on a fresh equal set",
+                                  step=k, call=step_brief(steps[k]), sequence=[step_brief(s) for s in steps[:k + 1]],
+                                  differs_in=diff, same_object=str(a.get(diff[0]))[:400], fresh_object=str(b.get(diff[0]))[:400],
+                                  imports=imports))
+                break
+            if steps[k]["op"] == "pp" and "out" in a:
+                try:
+                    got, _ = ast_imports(a["out"])
+                    if got != want:
+                        fails.append(dict(what="re-parsed imports differ from the input set", step=k, call=step_brief(steps[k]),
+                                          sequence=[step_brief(s) for s in steps[:k + 1]], out=a["out"][:400], imports=imports))
+                except (SyntaxError, ValueError) as e:
+                    fails.append(dict(what="output is not valid Python", step=k, call=step_brief(steps[k]), err=str(e)[:100],
+                                      sequence=[step_brief(s) for s in steps[:k + 1]], out=a["out"][:400], imports=imports))
+        if not fails and obs.get("again") is not None and obs["again"] != obs["fresh"][0]:
+            fails.append(dict(what="a call on an ImportSet that was used before gives a different result than on a fresh equal set",
+                              step=len(steps), call=step_brief(steps[0]) + " (repeated after the whole sequence)",
+                              sequence=[step_brief(s) for s in steps] + [step_brief(steps[0])],
+                              same_object=str(obs["again"])[:400], fresh_object=str(obs["fresh"][0])[:400], imports=imports))
+        return fails[:3]
+
     # -- oracle --------------------------------------------------------------------------------
     def oracle(self, case, obs):
         if case.get("kind") == "parse":
             return []
+        if case.get("kind") == "seq":
+            return self.oracle_seq(case, obs)
         imps, p = case["imports"], case["params"]
         want = set(canon_import(i) for i in imps)
         brief = dict(imports=[gen_c11.render_stmt(i) for i in imps][:12], params=p)
@@ -324,22 +464,74 @@ class C11(Prop):
     def model_requests(self, case, obs):
         if case.get("kind") == "parse":
             return [dict(op="parse", text=case["text"])]
+        if case.get("kind") == "seq":
+            return [r for _, r in self.seq_requests(case, obs)]
         p = case["params"]
-        al = p["align"]
-        if al is True or al is False:
-            alj = dict(t="bool", b=al)
-        elif isinstance(al, int):
-            alj = dict(t="col", n=al)
-        else:
-            alj = dict(t="cols", l=list(al))
-        reqs = [dict(op="pretty", splits=[list(split_of(i)) for i in case["imports"]],
-                     width=p["width"], align=alj, from_spaces=p["from_spaces"], hanging=p["hanging"], indent=p["indent"],
-                     sep_from=p["sep_from"], align_future=p["align_future"], d2fix=self.d2fix)]
+        reqs = [dict(op="pretty", splits=[list(split_of(i)) for i in case["imports"]], **params_json(p, self.d2fix))]
         if "out" in obs:
             reqs.append(dict(op="parse", text=obs["out"]))
         return reqs
 
+    def seq_requests(self, case, obs):
+        """[(tag, request)]: what the model says each step must return (independent of call history by construction)"""
+        if "err" in obs:
+            return []
+        out = []
+        splits = [list(split_of(i)) for i in case["imports"]]
+        for k, st in enumerate(case["steps"]):
+            op = st["op"]
+            if op == "pp":
+                out.append(((k, "pp"), dict(op="pretty", splits=splits, **params_json(st["params"], self.d2fix))))
+            elif op == "stmts":
+                out.append(((k, "stmts"), dict(op="pretty", splits=splits, **params_json(dict(DEFAULT_PARAMS, sep_from=st["sep_from"]), self.d2fix))))
+            elif op in ("repr", "statements"):
+                out.append(((k, op), dict(op="pretty", splits=splits, **params_json(DEFAULT_PARAMS, self.d2fix))))
+            elif op == "stmt_pp":
+                f = obs["fresh"][k]
+                if "stmt" in f:
+                    for j, c in enumerate(st["calls"]):
+                        out.append(((k, "stmt_pp", j), dict(op="stmt_pretty", fromname=f["stmt"][0], aliases=f["stmt"][1], col=c["col"], fs=c["fs"],
+                                                             **params_json(c["params"], self.d2fix))))
+            elif op in ("with", "union"):
+                out.append(((k, "set"), dict(op="pretty", splits=splits + [list(split_of(i)) for i in st["other"]],
+                                             **params_json(st["params"], self.d2fix))))
+            elif op == "without":
+                gone = set(canon_import(i) for i in st["remove"])
+                rest = [list(split_of(i)) for i in case["imports"] if canon_import(i) not in gone]
+                out.append(((k, "set"), dict(op="pretty", splits=rest, **params_json(st["params"], self.d2fix))))
+        return out
+
+    def compare_seq(self, case, obs, resps):
+        tags = [t for t, _ in self.seq_requests(case, obs)]
+        for tag, r in zip(tags, resps):
+            k = tag[0]
+            for who in ("same", "fresh"):
+                o = obs[who][k]
+                call = step_brief(case["steps"][k])
+                if tag[1] in ("pp", "set"):
+                    if "err" in o or "err" in r:
+                        if o.get("err") != r.get("err"):
+                            return f"step {k} {call} on the {who} object: impl={str(o)[:200]} model={str(r)[:200]}"
+                    elif o["out"] != r["ok"]:
+                        return f"step {k} {call} on the {who} object: text impl={o['out']!r} model={r['ok']!r}"
+                elif tag[1] in ("stmts", "statements"):
+                    if "stmts" in o and o["stmts"] != r.get("stmts"):
+                        return f"step {k} {call} on the {who} object: statements impl={o['stmts']!r} model={r.get('stmts')!r}"
+                elif tag[1] == "repr":
+                    if "ok" in r and "out" in o:
+                        w = "ImportSet('''\n%s''')" % "".join("  " + l for l in r["ok"].splitlines(True))
+                        if o["out"] != w:
+                            return f"step {k} repr() on the {who} object: impl={o['out']!r} model={w!r}"
+                elif tag[1] == "stmt_pp":
+                    if "outs" in o:
+                        got = o["outs"][2 * tag[2]]
+                        if "ok" not in r or got != r["ok"]:
+                            return f"step {k} {call} call {tag[2]} on the {who} object: impl={got!r} model={str(r)[:200]}"
+        return None
+
     def compare(self, case, obs, resps):
+        if case.get("kind") == "seq":
+            return self.compare_seq(case, obs, resps)
         if case.get("kind") == "parse":
             r = resps[0]
             a = obs["ast"]
@@ -384,6 +576,10 @@ class C11(Prop):
     def nontrivial_key(self, case, obs):
         if case.get("kind") == "parse":
             return None
+        if case.get("kind") == "seq":
+            if len(case["steps"]) >= 2 and len(case["imports"]) >= 2 and "same" in obs:
+                return "seq" + repr(case["imports"]) + repr(case["steps"])
+            return None
         out = obs.get("out")
         if out and out.count("\n") > len(obs.get("stmts") or []):
             return repr(sorted(case["imports"], key=str)) + repr(sorted(case["params"].items(), key=str))
@@ -392,6 +588,8 @@ class C11(Prop):
     def sample_repr(self, case, obs):
         if case.get("kind") == "parse":
             return dict(text=case["text"][:200], ast=str(obs.get("ast"))[:200])
+        if case.get("kind") == "seq":
+            return dict(imports=[gen_c11.render_stmt(i) for i in case["imports"]][:8], sequence=[step_brief(s) for s in case["steps"]][:6])
         return dict(imports=[gen_c11.render_stmt(i) for i in case["imports"]][:8], params=case["params"],
                     out=(obs.get("out") or obs.get("err") or "")[:300])
 
@@ -402,6 +600,14 @@ class C11(Prop):
         if case.get("kind") == "parse":
             inc("grammar_cases")
             inc("grammar_rejected" if isinstance(obs.get("ast"), str) else "grammar_accepted")
+            return
+        if case.get("kind") == "seq":
+            inc("sequence_cases")
+            for st in case["steps"]:
+                inc("seq_step_" + st["op"])
+            pps = [st["params"]["sep_from"] for st in case["steps"] if st["op"] == "pp"]
+            if any(a != b for a, b in zip(pps, pps[1:])):
+                inc("seq_with_separate_from_imports_flip")
             return
         p = case["params"]
         inc("align_" + ("bool" if isinstance(p["align"], bool) else "int" if isinstance(p["align"], int) else "set"))
